@@ -45,6 +45,10 @@ static sexp verif_stack_top (sexp ctx, sexp self, sexp_sint_t n) {
   return sexp_make_fixnum(sexp_context_top(ctx));
 }
 
+static sexp verif_stack_max (sexp ctx, sexp self, sexp_sint_t n) {
+  return sexp_make_fixnum(SEXP_MAX_STACK_SIZE);
+}
+
 static sexp verif_stack_size (sexp ctx, sexp self, sexp_sint_t n) {
   return sexp_make_fixnum(sexp_stack_length(sexp_context_stack(ctx)));
 }
@@ -410,6 +414,7 @@ int main (int argc, char **argv) {
 
   sexp_define_foreign(ctx, env, "verif-stack-top", 0, verif_stack_top);
   sexp_define_foreign(ctx, env, "verif-stack-size", 0, verif_stack_size);
+  sexp_define_foreign(ctx, env, "verif-stack-max", 0, verif_stack_max);
   sexp_define_foreign(ctx, env, "verif-heap-total", 0, verif_heap_total);
   sexp_define_foreign(ctx, env, "verif-heap-free", 0, verif_heap_free);
   sexp_define_foreign(ctx, env, "verif-gc", 0, verif_gc);
